@@ -61,8 +61,8 @@ Delivered(keys, lines, ms, k) ==
 \* rotating sink: the scenario plants a log file of an earlier day (`old` lines, modification time two days back) and
 \* the directory is read afterwards - out.rot = rotated files in (date, index) order, each [gz, old (named after the
 \* planted file's day), lines, bytes], out.file / out.fileBytes = the active file.
-FileObligations(keys, ms, out) ==
-    LET fo == keys.fopt
+FileShape(fo, nnew, out, NewLineOk(_, _)) ==
+    LET ms == [i \in 1..nnew |-> i]
         all == Flat([i \in 1..Len(out.rot) |-> out.rot[i].lines]) \o out.file
         want == Len(fo.old) + Len(ms)
         k == want - Len(all)                                       \* lines that retention removed (the oldest ones)
@@ -72,7 +72,7 @@ FileObligations(keys, ms, out) ==
     IN  /\ k >= 0 /\ (k > 0 => fo.N >= 2)
         /\ \A i \in 1..Len(all) :
                LET j == k + i IN
-               IF j <= Len(fo.old) THEN all[i] = fo.old[j] ELSE LineOk(keys, all[i], ms[j - Len(fo.old)])
+               IF j <= Len(fo.old) THEN all[i] = fo.old[j] ELSE NewLineOk(all[i], j - Len(fo.old))
         /\ startRot => (/\ Len(out.file) <= Len(ms)                \* nothing old is left in the active file
                         /\ (k < Len(fo.old)) => (out.rot # <<>> /\ out.rot[1].old))   \* and it went to a file named after its day
         /\ (~startRot /\ (fo.L = 0 \/ ~rotating)) => out.rot = <<>>
@@ -81,6 +81,9 @@ FileObligations(keys, ms, out) ==
         /\ (fo.L > 0 /\ rotating) =>
                /\ \A i \in 1..Len(out.rot) : out.rot[i].bytes <= fo.L \/ Len(out.rot[i].lines) = 1
                /\ out.fileBytes <= fo.L \/ Len(out.file) <= 1
+
+FileObligations(keys, ms, out) ==
+    FileShape(keys.fopt, Len(ms), out, LAMBDA line, j : LineOk(keys, line, ms[j]))
 
 IniObligations(keys, msgs, out) ==
     LET ms == Through(keys, msgs)
@@ -105,12 +108,16 @@ StripAnsi(s) == StripFrom(s, 1)
 
 \* one-line configure(path, ...): every message on the console once (pretty, coloured), and the file - when a
 \* path is given - holds the console text minus its colour codes
+\* (with a size limit of 0 and neither start-up nor daily rotation the one-line form uses a plain FileSink, which never
+\* rotates, whatever the count limit and the compression flag say)
+OneLineFo(fo) == IF fo.L > 0 \/ fo.startup \/ fo.daily THEN fo ELSE [fo EXCEPT !.N = 1]
+
 OneLineObligations(hasPath, msgs, out) ==
     /\ Len(out.stderr) = Len(msgs) /\ out.stdout = <<>>
     /\ \A i \in 1..Len(msgs) : PrettyShape(StripAnsi(out.stderr[i]), msgs[i])
     /\ out.fileExists = hasPath
-    /\ hasPath => (/\ Len(out.file) = Len(out.stderr)
-                   /\ \A i \in 1..Len(out.file) : out.file[i] = StripAnsi(out.stderr[i]) /\ ~Contains(out.file[i], <<27>>))
+    /\ hasPath => FileShape(OneLineFo(out.fopt), Len(msgs), out,
+                            LAMBDA line, j : line = StripAnsi(out.stderr[j]) /\ ~Contains(line, <<27>>))
     /\ ~hasPath => out.file = <<>>
 
 ---------------------------------------------------------------------------
